@@ -567,7 +567,10 @@ def kaldi_gen_case(ctx, I, idx):
     min_dur = None
     if r.random() < 0.4:
         durs = [u_["n"] / u_["rate"] for u_ in utts]
-        min_dur = r.choice([0.0, r.choice(durs), r.choice(durs) * 1.0001, r.choice(durs) * 0.999, max(durs) + 1, 0.01])
+        # ("at"|"above"|"below", k): relative to the duration the tool is given for utterance k (a float32 quotient)
+        k = r.randrange(len(utts))
+        min_dur = r.choice([0.0, ("at", k), ("at", k), ("above", k), ("below", k), r.choice(durs) * 1.0001,
+                            r.choice(durs) * 0.999, max(durs) + 1, 0.01])
     seed = r.choice([None, 0, 0, 1, 30, 2 ** 31 - 5])
     pre, post = gen_pre(r), gen_post(r)
     return dict(tool="kaldi", idx=idx, computer=comp_cfg, pre=pre, post=post, channel=channel, min_duration=min_dur,
@@ -1038,6 +1041,13 @@ def check_kaldi(ctx, I, ncases):
             ctx.fail("library refuses a generated configuration: %s" % e, dict(case=case), kind="impl")
             continue
         view = kaldi_table_view(I, d)
+        if isinstance(case["min_duration"], (tuple, list)):
+            how, k = case["min_duration"]
+            dur = view[k][3]
+            import math
+
+            case["min_duration"] = dur if how == "at" else math.nextafter(dur, math.inf if how == "above" else -math.inf)
+            ctx.count("kaldi:min-duration:" + how)
         args = kaldi_args(case, d)
         obs = kaldi_run_tool(I, case, d, args, case["init_seed"])
         # ---- the property statement, directly
